@@ -219,7 +219,7 @@ func allowListEdges(fn *ssa.Function, alsoEmpty bool) map[edgeKey]bool {
 // ---------- C06: admission, cap, order, translation, scope ----------
 
 func ruleGRDadmit(w *World, r *Report) {
-	r.Doc("GRD-admit", "every push onto the result heap of the layer search is guarded by the not-Deleted test and, when an allow-list is present, by the membership test", 4)
+	r.Doc("GRD-admit", "every push onto the result heap of the layer search is guarded by the not-Deleted test and, when an allow-list is present, by the membership test", 2)
 	fi := w.Func("pkg/core/hnsw", "Index.searchLayerUnlocked")
 	if fi == nil {
 		r.Und("GRD-admit", "anchor:Index.searchLayerUnlocked", "", "anchor lost")
@@ -283,7 +283,7 @@ func mentionsParam(v ssa.Value, name string, depth int) bool {
 }
 
 func ruleGRDcap(w *World, r *Report) {
-	r.Doc("GRD-cap", "every return of a result list from the search entry points passes a comparison of the result count with the caller's k/limit", 3)
+	r.Doc("GRD-cap", "every return of a result list from the search entry points passes a comparison of the result count with the caller's k/limit", 2)
 	specs := []struct{ pkg, fn, param string }{
 		{"pkg/core/hnsw", "Index.searchLayerUnlocked", "k"},
 		{"pkg/engine", "Engine.searchWithFusion", "k"},
@@ -395,6 +395,40 @@ func ruleGRDorder(w *World, r *Report) {
 					return mentionsFreeVar(sl.High, "k", 0)
 				}) {
 					r.Bad("GRD-order", name+":no-candidate-cut-before-fusion", w.Pos(in.Pos()), "a candidate list is cut to k inside a search goroutine, before fusion: documents below rank k on one side lose that side's share of the fused score, so the fused top-k no longer follows alpha*vector + (1-alpha)*text")
+				}
+			}
+			// ... nor stop collecting candidates once they have k of them (a length compared with k)
+			for _, cf := range closuresOf(fn) {
+				launched := false
+				for _, g := range findInstrs(fn, func(in ssa.Instruction) bool { _, ok := in.(*ssa.Go); return ok }) {
+					if mc, ok := g.(*ssa.Go).Call.Value.(*ssa.MakeClosure); ok && mc.Fn == cf {
+						launched = true
+					}
+				}
+				if !launched {
+					continue
+				}
+				for _, in := range findInstrs(cf, func(in ssa.Instruction) bool {
+					bo, ok := in.(*ssa.BinOp)
+					if !ok {
+						return false
+					}
+					switch bo.Op {
+					case token.LSS, token.LEQ, token.GTR, token.GEQ, token.EQL, token.NEQ:
+					default:
+						return false
+					}
+					isLen := func(v ssa.Value) bool {
+						c, ok := v.(*ssa.Call)
+						if !ok {
+							return false
+						}
+						_, l := isBuiltinCall(c, "len")
+						return l
+					}
+					return (isLen(bo.X) && mentionsFreeVar(bo.Y, "k", 0)) || (isLen(bo.Y) && mentionsFreeVar(bo.X, "k", 0))
+				}) {
+					r.Bad("GRD-order", name+":no-candidate-cut-before-fusion", w.Pos(in.Pos()), "a search goroutine compares the length of its candidate list with k (it stops collecting at k hits), before fusion: documents below rank k on one side lose that side's share of the fused score, so the fused top-k no longer follows alpha*vector + (1-alpha)*text")
 				}
 			}
 			r.Ok("GRD-order", name+":candidate-lists-reach-fusion-uncut", w.Pos(fi.Decl.Pos()), "checked")
